@@ -38,7 +38,7 @@ LEMMA = {"quick": dict(SMALL=5, BIG=[(12, 12), (9, 14)]), "thorough": dict(SMALL
 FAMS = ("lu", "chol", "qr", "qp3", "tri", "ls", "pb", "td", "aux", "larft")
 NOFORCE = ("larft", "td", "aux")   # families without block-size dependent code
 FORCED = {"quick": [(1, 0), (2, 0), (3, 0), (4, 0), (2, 2), (3, 2)],
-          "thorough": [(nb, nx) for nb in (1, 2, 3, 4, 5, 7) for nx in (0, 2)]}
+          "thorough": [(1, 0), (2, 0), (3, 0), (4, 0), (5, 0), (7, 0), (2, 2), (3, 2)]}
 
 
 def enc(shapes):
@@ -76,7 +76,7 @@ def run(ctx):
             for nb, nx in FORCED[ctx.tier]:
                 if fam not in ("qr", "qp3", "ls") and nx != 0:
                     continue        # only the QR/LQ family has a crossover parameter
-                for bn, _ in (builds[:2] if thorough else builds[:1]):
+                for bn, _ in builds[:1]:
                     ctx.replay(bins[bn], "lapack", cases, args + ["nb=%d" % nb, "nx=%d" % nx],
                                name="R2 replay %s nb=%d nx=%d [%s]" % (fam, nb, nx, bn))
 
